@@ -23,6 +23,7 @@ import (
 	"io/fs"
 	"math/big"
 	"os"
+	"regexp"
 	"strings"
 	"testing/fstest"
 	"time"
@@ -30,6 +31,7 @@ import (
 	"github.com/keybase/go-crypto/brainpool"
 	"github.com/wokdav/gopki/generator/db"
 	"github.com/wokdav/gopki/generator/db/filesystem"
+	"github.com/wokdav/gopki/logging"
 )
 
 type entity struct {
@@ -39,6 +41,9 @@ type entity struct {
 	json     bool   // write as .json instead of .yaml
 	artifact []byte // pre-existing artifact file (an imported issuer): the entity itself is not generated and yields no case
 }
+
+// a dotted object identifier with an arc of at least 2^31 (ten digits and more; 2147483648 is the smallest)
+var bigArc = regexp.MustCompile(`[0-9]\.(2147483(6(4[89]|[5-9][0-9])|[7-9][0-9]{2})|21474[89][0-9]{5}|2147[5-9][0-9]{6}|214[89][0-9]{7}|21[5-9][0-9]{8}|2[2-9][0-9]{9}|[3-9][0-9]{9}|[0-9]{11,})([^0-9]|$)`)
 
 type rawCert struct {
 	TBS    asn1.RawValue
@@ -308,6 +313,54 @@ func runHierarchy(tag string, ents []entity, profiles []*Profile) int {
 			status = "update: " + err.Error()
 		}
 	}()
+	if status == "ok" {
+		// C10 at the byte level: the same flags again, on what the run left behind, find nothing to do - whatever the
+		// configurations hold (manipulations, raw extensions, unique ids, profiles, imported issuers)
+		func() {
+			defer func() {
+				if r := recover(); r != nil {
+					fmt.Fprintf(out, "SELFFAIL %s: planning a second run panicked: %v\n", tag, r)
+				}
+			}()
+			var why bytes.Buffer
+			logging.Initialize(logging.LevelDebug, &why, &why)
+			defer logging.Initialize(logging.LevelNone, nil, nil)
+			d2 := filesystem.NewFilesystemDatabase(filesystem.NewMapFs(m))
+			if err := d2.Open(); err != nil {
+				fmt.Fprintf(out, "SELFFAIL %s: the directory the successful run left behind is refused: %v\n", tag, err)
+				return
+			}
+			plan2, err := db.PlanBulkUpdate(d2, db.UpdateMissing|db.UpdateChanged)
+			logging.Initialize(logging.LevelNone, nil, nil)
+			reason := ""
+			for _, l := range strings.Split(why.String(), "\n") {
+				if strings.Contains(l, "reason:") || strings.Contains(l, "WARN") || strings.Contains(l, "ERROR") || strings.Contains(l, "rror") || strings.Contains(l, "can.t") {
+					reason += " | " + l
+				}
+			}
+			if len(reason) > 600 {
+				reason = reason[:600]
+			}
+			if err != nil {
+				fmt.Fprintf(out, "SELFFAIL %s: planning a second run with the same flags fails: %v\n", tag, err)
+			} else if len(plan2) > 0 {
+				// recorded finding F29: an object identifier arc of 2^31 or more can be written but not read back (Go's asn1 decoder
+				// stops at int32), so the artifact counts as missing on every later run
+				known := ""
+				if strings.Contains(why.String(), "base 128 integer too large") {
+					for _, e := range ents {
+						if bigArc.MatchString(jsonText(e.cfg.tree())) {
+							known = " (F29)"
+						}
+						if e.profile != nil && bigArc.MatchString(jsonText(e.profile.tree())) {
+							known = " (F29)"
+						}
+					}
+				}
+				fmt.Fprintf(out, "SELFFAIL %s: a second run with the same flags right after the successful one plans %d change(s), first: %s%s%s\n", tag, len(plan2), plan2[0].Alias, known, reason)
+			}
+		}()
+	}
 	if os.Getenv("VERIF_DEBUG") != "" && strings.Contains(status, "unknown profile") {
 		for _, p := range profiles {
 			debugParse(p.Name, jsonText(p.tree()))
